@@ -26,6 +26,8 @@ inductive RegKind
   | classAttrWrite      -- `cls.x = …` / `setattr(cls, x, …)` after definition
   | inPlaceClassAttr    -- in-place mutation of a list/dict read from the class without copying
   | inPlaceCacheEntry   -- in-place mutation of an object handed out by a cache (the entry itself changes)
+  | earlyBoundClassAttr -- an attribute written onto classes after definition is read from another class once
+                        -- and captured by a generated closure (frozen at generation time)
   deriving DecidableEq, Repr, Inhabited
 
 structure RegistryRec where
@@ -40,12 +42,13 @@ structure RegistryRec where
 /-- a row is safe when the state cannot carry information from one class to another -/
 def RegistryRec.safe (r : RegistryRec) : Bool :=
   (r.key != .className) && (r.key != .otherClass) && (r.key != .unknown) && (r.key != .partialArgs) &&
-  (r.kind != .inPlaceClassAttr) && (r.kind != .inPlaceCacheEntry)
+  (r.kind != .inPlaceClassAttr) && (r.kind != .inPlaceCacheEntry) && (r.kind != .earlyBoundClassAttr)
 
 /-- stable finding key of an unsafe row (same strings as in known_findings.json) -/
 def RegistryRec.findingKey (r : RegistryRec) : String :=
   if r.kind == .inPlaceClassAttr then "mutates-" ++ r.name ++ ":" ++ r.site
   else if r.kind == .inPlaceCacheEntry then "mutates-cache-entry:" ++ r.name ++ ":" ++ r.site
+  else if r.kind == .earlyBoundClassAttr then "early-bound:" ++ r.name ++ ":" ++ r.site
   else match r.key with
     | .partialArgs => "key-drops-argument:" ++ r.name
     | .className => "name-keyed:" ++ r.name
@@ -72,7 +75,7 @@ def configOf (rows : List RegistryRec) : Config where
   mapperDropsCamel := hasRow rows fun r => (r.name == "aggregated_mapper_by_class" && r.kind == .dict && r.key == .partialArgs) && !r.safe
   simplicityByName := hasRow rows fun r => (r.name == "_structure_simplicity_level" && r.kind != .inPlaceCacheEntry) && !r.safe
   schemaWritesRequired := hasRow rows fun r => (r.name == "cls._required" && r.site == "structure_to_schema") && !r.safe
-  serializerOnBase := hasRow rows fun r => r.name == "cls.serialize" && !r.safe
+  serializerOnBase := hasRow rows fun r => (r.name == "cls.serialize" && r.kind == .classAttrWrite) && !r.safe
 
 /-- the configuration under which the frame property holds without exclusions -/
 def Config.safe (c : Config) : Bool :=
